@@ -199,13 +199,115 @@ rc::Gen<Case> gen_deep() {
   return make_case({{"type", range(0, 2)}, {"order", range(0, 1)}, {"shape", range(0, 2)}, {"base", range(1, 1 << 30)}}, rc::gen::just(std::vector<Op>{}));
 }
 
+// Coupon (SET) mode at large lg_k: the sketch still holds individual coupons (up to 3/32 k of them) and estimates through the coupon
+// interpolation table, with intervals of a few 1e-5 relative width - far narrower than the HLL-mode RSE of the configured size. The
+// published interval is the yardstick: coverage as above, and |mean relative error| <= 0.25 of the mean 1-sigma half-width + 5 sigma.
+void prop_coupon(const Case& cs) {
+  // configurations whose 1-sigma half-width is at least 3 items (n >= 65 000): below that the interval is about one item wide and its
+  // coverage is decided by the discreteness of the collision count, not by the estimator (calibration: lg_k 19, n = 22 118 covers 0.55-0.60)
+  static const struct { int lg_k; double frac; } CFG[] = {{20, 0.70}, {20, 0.85}, {20, 0.97}, {21, 0.35}, {21, 0.50}, {21, 0.65}, {21, 0.82}, {21, 0.97}};
+  const auto& cf = CFG[static_cast<uint64_t>(cs.get("sel", 0)) % 8];
+  const int lg_k = cf.lg_k;
+  const uint64_t n = static_cast<uint64_t>(cf.frac * 3.0 * std::ldexp(1.0, lg_k) / 32.0);
+  const target_hll_type ty = static_cast<target_hll_type>(cs.get("type", 0) % 3);
+  const uint64_t base = (vf::mix64(static_cast<uint64_t>(cs.get("base", 1)) + 1234567) >> 16) << 8;
+  const long T = std::max<long>(50, vf::env_long("VF_TRIALS", 150) / 2);
+  const double dn = static_cast<double>(n);
+  std::vector<Trial> trials;
+  double half = 0;
+  for (long t = 0; t < T; ++t) {
+    Trial tr;
+    const uint64_t b = base + static_cast<uint64_t>(t) * (n + 17);
+    hll_sketch a(static_cast<uint8_t>(lg_k), ty);
+    for (uint64_t i = 0; i < n; ++i) a.update(b + i);
+    const auto img = a.serialize_compact();
+    VF_CHECK((img[7] & 3) == 1, "coupon-still-set-mode", "lg_k " << lg_k << " n " << n << ": the sketch left SET mode (mode bits " << (img[7] & 3) << ")");
+    tr.est = a.get_estimate();
+    for (int s = 0; s < 3; ++s) { tr.lb[s] = a.get_lower_bound(s + 1); tr.ub[s] = a.get_upper_bound(s + 1); VF_CHECK(tr.lb[s] <= tr.est && tr.est <= tr.ub[s], "sketch-bounds-order", "lg_k " << lg_k << " n " << n << ": lb " << tr.lb[s] << " est " << tr.est << " ub " << tr.ub[s]); }
+    half += (tr.ub[0] - tr.lb[0]) / (2 * dn);
+    trials.push_back(tr);
+  }
+  half /= T;
+  double mean = 0; for (auto& t : trials) mean += t.est / dn - 1.0; mean /= T;
+  double var = 0; for (auto& t : trials) { double r = t.est / dn - 1.0 - mean; var += r * r; } var /= std::max<long>(1, T - 1);
+  const double sd = std::sqrt(var);
+  std::ostringstream who; who << "hll coupon mode lg_k=" << lg_k << " n=" << n << " type=" << int(ty) << " T=" << T;
+  if (!vf::env("C06_CALIB").empty()) fprintf(stderr, "CALIB coupon lg_k=%d n=%llu T=%ld mean/half=%.4f sd/half=%.4f half=%.3e\n", lg_k, static_cast<unsigned long long>(n), T, mean / half, sd / half, half);
+  VF_CHECK(std::fabs(mean) <= 0.25 * half + 5.0 * sd / std::sqrt(static_cast<double>(T)), "bias", who.str() << ": mean relative error " << mean << " (std " << sd << ") vs the published 1-sigma half-width " << half);
+  VF_CHECK(sd <= 1.25 * half * (1.0 + 5.0 / std::sqrt(2.0 * T)), "spread", who.str() << ": std of relative error " << sd << " exceeds the published 1-sigma half-width " << half);
+  static const double nominal[] = {0.6827, 0.9545, 0.9973};
+  for (int s = 0; s < 3; ++s) {
+    long in = 0; for (auto& t : trials) in += (t.lb[s] - 1.0 <= dn && dn <= t.ub[s] + 1.0);   // one item of slack: the truth is an integer, the interval a few items wide
+    const double cov = static_cast<double>(in) / T;
+    const double need = nominal[s] - 0.015 - 5.0 * std::sqrt(nominal[s] * (1 - nominal[s]) / T);
+    if (!vf::env("C06_CALIB").empty()) fprintf(stderr, "CALIB coupon-cov lg_k=%d n=%llu s=%d cov=%.4f need=%.4f\n", lg_k, static_cast<unsigned long long>(n), s + 1, cov, need);
+    VF_CHECK(cov >= need, "coverage", who.str() << ": " << (s + 1) << "-sigma interval (+- 1 item) covers the truth in " << cov << " of trials, need " << need);
+  }
+  vf::nontrivial();
+  vf::count("trials", static_cast<uint64_t>(T));
+  vf::label("family:hll-coupon-mode-large-lg_k");
+}
+rc::Gen<Case> gen_coupon() {
+  using namespace vf;
+  return make_case({{"sel", pick({0, 1, 2, 3, 4, 5, 6, 7})}, {"type", pick({0, 1, 2})}, {"base", range(1, 1 << 30)}}, rc::gen::just(std::vector<Op>{}));
+}
+
+// Tails of the CPC intervals at tiny lg_k: the 2- and 3-sigma bounds come from separate low-side / high-side tables whose entries differ by
+// 25-50 % at lg_k 4..6, so a bound built from the wrong side is off by a third of its width - visible only in the tail frequencies. Cheap
+// sketches allow 100 x the usual number of trials, which resolves the 3-sigma tail (nominal 0.27 %) with the tighter stated tolerances below.
+void prop_tails(const Case& cs) {
+  const int lg_k = 4 + static_cast<int>(cs.get("lgk", 0) % 2);
+  const uint64_t k = 1ull << lg_k;
+  const uint64_t n = (cs.get("nsel", 0) & 1) ? 100 * k : 30 * k;
+  const bool uni = cs.get("union", 0) & 1;
+  const uint64_t base = (vf::mix64(static_cast<uint64_t>(cs.get("base", 1)) + 987654321) >> 16) << 8;
+  const long T = vf::env_long("VF_TRIALS", 150) * 100;
+  const double dn = static_cast<double>(n);
+  long in[3] = {0, 0, 0}, below[3] = {0, 0, 0}, above[3] = {0, 0, 0};
+  for (long t = 0; t < T; ++t) {
+    const uint64_t b = base + static_cast<uint64_t>(t) * (n + 17);
+    double lb[3], ub[3], est;
+    if (!uni) {
+      cpc_sketch a(static_cast<uint8_t>(lg_k));
+      for (uint64_t i = 0; i < n; ++i) a.update(b + i);
+      est = a.get_estimate(); for (int s = 0; s < 3; ++s) { lb[s] = a.get_lower_bound(s + 1); ub[s] = a.get_upper_bound(s + 1); }
+    } else {
+      cpc_sketch a(static_cast<uint8_t>(lg_k)), c(static_cast<uint8_t>(lg_k));
+      for (uint64_t i = 0; i < n; ++i) { if (i < 2 * n / 3) a.update(b + i); if (i >= n / 3) c.update(b + i); }
+      cpc_union u(static_cast<uint8_t>(lg_k)); u.update(a); u.update(c);
+      cpc_sketch r = u.get_result();
+      est = r.get_estimate(); for (int s = 0; s < 3; ++s) { lb[s] = r.get_lower_bound(s + 1); ub[s] = r.get_upper_bound(s + 1); }
+    }
+    for (int s = 0; s < 3; ++s) {
+      VF_CHECK(lb[s] <= est && est <= ub[s], "sketch-bounds-order", "cpc lg_k " << lg_k << " n " << n << ": lb " << lb[s] << " est " << est << " ub " << ub[s]);
+      if (dn < lb[s]) ++below[s]; else if (dn > ub[s]) ++above[s]; else ++in[s];
+    }
+  }
+  std::ostringstream who; who << "cpc" << (uni ? " union" : "") << " lg_k=" << lg_k << " n=" << n << " T=" << T;
+  static const double nominal[] = {0.6827, 0.9545, 0.9973};
+  static const double tol[] = {0.015, 0.010, 0.004};
+  for (int s = 0; s < 3; ++s) {
+    const double cov = static_cast<double>(in[s]) / T;
+    const double need = nominal[s] - tol[s] - 5.0 * std::sqrt(nominal[s] * (1 - nominal[s]) / T);
+    if (!vf::env("C06_CALIB").empty()) fprintf(stderr, "CALIB tails lg_k=%d n=%llu uni=%d s=%d cov=%.4f need=%.4f below=%.4f above=%.4f\n", lg_k, static_cast<unsigned long long>(n), int(uni), s + 1, cov, need, double(below[s]) / T, double(above[s]) / T);
+    VF_CHECK(cov >= need, "coverage", who.str() << ": " << (s + 1) << "-sigma interval covers the truth in " << cov << " of trials (truth below the lower bound " << double(below[s]) / T << ", above the upper bound " << double(above[s]) / T << "), need " << need);
+  }
+  vf::nontrivial();
+  vf::count("trials", static_cast<uint64_t>(T));
+  vf::label(uni ? "family:cpc-union-tails" : "family:cpc-tails");
+}
+rc::Gen<Case> gen_tails() {
+  using namespace vf;
+  return make_case({{"lgk", pick({0, 1})}, {"nsel", pick({0, 1})}, {"union", pick({0, 0, 1})}, {"base", range(1, 1 << 30)}}, rc::gen::just(std::vector<Op>{}));
+}
+
 }  // namespace
 
 int main(int argc, char** argv) {
   return vf::main_driver(argc, argv, "C06", "c06_accuracy",
                          "accuracy (statistical, weak): case = (family Theta/Tuple/HLL/CPC, lg_k, n in {k/2,2k,16k,128k}, p, single sketch or union result, HLL type) "
                          "evaluated over T independent trials on disjoint key ranges; asserts bias <= 0.15 RSE + 5 RSE/sqrt(T), spread <= 1.15 RSE (1 + 5/sqrt(2T)), "
-                         "coverage >= nominal - 1.5 points - 5 sigma; sub deep = HLL unions of n = 2^18 streams folded down to lg_k 4 (register values beyond 15); "
+                         "coverage >= nominal - 1.5 points - 5 sigma; sub coupon = HLL sketches of lg_k 20..21 still in coupon mode (65 000 .. 190 000 items) against their own published interval; sub tails = CPC lg_k 4..5 with 100 x the trials and tolerances 1.5 / 1.0 / 0.4 points; sub deep = HLL unions of n = 2^18 streams folded down to lg_k 4 (register values beyond 15); "
                          "non-trivial = estimation mode; distinct = distinct case text",
-                         {{"accuracy", gen, prop, 1.0}, {"deep", gen_deep, prop_deep, 0.05}});
+                         {{"accuracy", gen, prop, 1.0}, {"deep", gen_deep, prop_deep, 0.05}, {"coupon", gen_coupon, prop_coupon, 0.03}, {"tails", gen_tails, prop_tails, 0.03}});
 }
